@@ -2,6 +2,7 @@ import RumaModel.Driver.HtmlCodec
 import RumaModel.Spec.HtmlAllow
 import RumaModel.Generated.C14
 import RumaModel.Lemmas.HtmlTables
+import RumaModel.Lemmas.HtmlSorted
 namespace Ruma.Driver.C14
 open Ruma Ruma.Proto Ruma.Html Ruma.Driver.Html
 
@@ -15,7 +16,10 @@ def handle (toks : List String) : String :=
     match parseVal rest with
     | some (cfgv, _html :: rest') =>
       match parseCfg cfgv, parseForest rest' with
-      | some cfg, some (f, []) => "ok " ++ showForest (clean implLists cfg f)
+      | some cfg, some (f, []) =>
+        -- attribute lists must arrive in the model's order of `Attribute` (= Rust's derived `Ord`)
+        if !Lemmas.Html.sortedForestB f then "bad-op"
+        else "ok " ++ showForest (clean implLists cfg f)
       | _, _ => "bad-op"
     | _ => "bad-op"
   -- T1 cells: answered by the SPEC
